@@ -180,7 +180,12 @@ func negZero() float64 { z := 0.0; return -z }
 func joinRunes(l []any) string {
 	s := ""
 	for _, r := range l {
-		s += asS(r)
+		n := asS(r)
+		if c, ok := abstractChars[n]; ok && len([]rune(n)) > 1 {
+			s += c
+		} else {
+			s += n
+		}
 	}
 	return s
 }
